@@ -404,6 +404,10 @@ class MPFREngine(Engine):
     def copysign(self, x: EngineArg, y: EngineArg, ctx: Context) -> EngineRes:
         if isinstance(x, Fraction) or isinstance(y, Fraction):
             return None
+        if y.isnan:
+            # `float_to_mpfr` drops the sign of a NaN; the sign transfer is
+            # exact, so leave it to the real engine, which keeps it
+            return None
         prec, n = ctx.round_params()
         if prec is None and n is None:
             return None
